@@ -48,6 +48,11 @@ pub struct NetCfg {
     /// (stateless anti-spoofing accept, as in the repository's establish_connection_anti_ip_addr_spoofing test)
     #[serde(default)]
     pub stateless_accept: bool,
+    /// 0.6+token, C03 only: the acceptor is seen by the client as one that hands out a reserved token value
+    /// (1: 00 00 00 00, 2: ff ff ff ff): a translating middlebox rewrites the token at the end of every datagram in
+    /// both directions, so the session works while the token the CLIENT has agreed on is a placeholder value
+    #[serde(default)]
+    pub alien_token: u8,
 }
 
 /// `ep`: 0 = A (connecting side), 1 = B (accepting side), 2 = both (Advance only).
@@ -156,6 +161,8 @@ pub struct World<'a> {
     pub stale: [Vec<Vec<u8>>; 2],
     pub in_suffix: bool,
     pub injecting: bool,
+    /// the acceptor's real token, learnt from its ConnectAccept (alien_token runs)
+    pub alien_real: Option<[u8; 4]>,
     /// a token-carrying forged datagram was fed: the delivery model (C01) no longer applies
     pub forged: bool,
     pub tm_before: Option<bool>,
@@ -164,10 +171,27 @@ pub struct World<'a> {
     pub wirelog: Option<[Vec<Vec<u8>>; 2]>,
 }
 
+/// The twelve byte values the protocol's Huffman table encodes with the most bits (computed from the table).
+fn expensive_symbols() -> &'static [u8] {
+    static E: std::sync::OnceLock<Vec<u8>> = std::sync::OnceLock::new();
+    E.get_or_init(|| {
+        let mut cost: Vec<(usize, u8)> = (0..=255u8).map(|b| (HUFFMAN.compressed_len(&[b; 64]), b)).collect();
+        cost.sort_by(|a, b| b.cmp(a));
+        cost.iter().take(12).map(|c| c.1).collect()
+    })
+}
+
 pub fn payload(seed: u64, ep: u8, vital: bool, len: usize, fill: u8, tag: u32) -> Vec<u8> {
     let mut r = Prng::new(mix(seed, tag as u64, 0x70_61_79));
     let mut v = vec![0u8; len];
-    match fill % 4 {
+    match fill % 5 {
+        4 => {
+            // the byte values with the longest Huffman codes: "compressed" is far larger than plain
+            let e = expensive_symbols();
+            for b in v.iter_mut() {
+                *b = e[r.usize_below(e.len())];
+            }
+        }
         0 => {} // zeros: maximally compressible
         1 => r.fill(&mut v), // incompressible
         2 => {
@@ -249,6 +273,7 @@ impl<'a> World<'a> {
             stale: [Vec::new(), Vec::new()],
             in_suffix: false,
             injecting: false,
+            alien_real: None,
             forged: false,
             tm_before: None,
             session: 0,
